@@ -126,7 +126,7 @@ func TestDecide(t *testing.T) {
 		allow  []string
 	}{
 		{ReqSpec{Method: "GET", Path: "/users"}, 0, "list", nil},
-		{ReqSpec{Method: "GET", Path: "/users/me"}, 0, "me", nil},    // literal beats variable
+		{ReqSpec{Method: "GET", Path: "/users/me"}, 0, "me", nil},     // literal beats variable
 		{ReqSpec{Method: "GET", Path: "/users/vip/7"}, 0, "vip", nil}, // longer root beats its prefix
 		{ReqSpec{Method: "GET", Path: "/nothing"}, 404, "", nil},
 		{ReqSpec{Method: "GET", Path: "/users/1/2/3"}, 404, "", nil},
